@@ -63,7 +63,12 @@ var c17Vals = map[string]any{
 	"mdot": map[string]any{"a.b": "x", "c": "y"}, "mnest": map[string]any{"in": map[string]any{"x": "1"}, "e": map[string]any{}, "s": "t"},
 }
 
+// defined types over a string / an integer kind: bound like their underlying kind
+type c17Str string
+type c17I64 int64
+
 var c17Types = map[string]reflect.Type{
+	"nstring": reflect.TypeOf(c17Str("")), "pnstring": reflect.TypeOf((*c17Str)(nil)), "nint64": reflect.TypeOf(c17I64(0)),
 	"string": reflect.TypeOf(""), "pstring": reflect.TypeOf((*string)(nil)), "int": reflect.TypeOf(0), "int64": reflect.TypeOf(int64(0)),
 	"uint8": reflect.TypeOf(uint8(0)), "float64": reflect.TypeOf(0.0), "bool": reflect.TypeOf(false),
 	"strs": reflect.TypeOf([]string{}), "ints": reflect.TypeOf([]int{}), "mapany": reflect.TypeOf(map[string]any{}),
@@ -75,11 +80,11 @@ func c17Compatible(vk, tn string) bool {
 	v := c17Vals[vk]
 	switch x := v.(type) {
 	case string:
-		return tn == "string" || tn == "pstring" || tn == "any"
+		return tn == "string" || tn == "pstring" || tn == "any" || tn == "nstring" || tn == "pnstring"
 	case int, int64:
 		n := reflect.ValueOf(x).Int()
 		switch tn {
-		case "int", "int64", "any":
+		case "int", "int64", "any", "nint64":
 			return true
 		case "uint8":
 			return n >= 0 && n <= 255
@@ -128,9 +133,9 @@ func c17Preset(tn string) any {
 // c17Default is a default text of the field's kind that differs from every configured value.
 func c17Default(tn string) string {
 	switch tn {
-	case "string", "pstring", "any":
+	case "string", "pstring", "any", "nstring", "pnstring":
 		return "dflt"
-	case "int", "int64", "uint8":
+	case "int", "int64", "uint8", "nint64":
 		return "77"
 	case "float64":
 		return "9.5"
@@ -168,6 +173,8 @@ func c17Norm(v any) any {
 			return "num:" + strconv.FormatInt(int64(f), 10)
 		}
 		return "num:" + strconv.FormatFloat(f, 'g', -1, 64)
+	case reflect.String:
+		return rv.String()
 	case reflect.Slice:
 		out := make([]any, rv.Len())
 		for i := range out {
@@ -238,7 +245,7 @@ func c17Run(c *core.Ctx) {
 			if !ok || s == "" || k == "scomma" {
 				continue
 			}
-			for _, tn := range []string{"string", "pstring"} {
+			for _, tn := range []string{"string", "pstring", "nstring", "pnstring"} {
 				if !yield(c17Case{k, tn, "literal"}) {
 					return
 				}
